@@ -475,8 +475,13 @@ func RunCheck(def *CheckDef, tier string, seed uint64, root, repo, exe string) i
 		"violations": nViol,
 	}
 	eb, _ := json.MarshalIndent(ev, "", " ")
-	os.MkdirAll(filepath.Join(root, "evidence"), 0o755)
-	if err := os.WriteFile(filepath.Join(root, "evidence", def.ID+".json"), append(eb, '\n'), 0o644); err != nil {
+	evDir := filepath.Join(root, "evidence")
+	if repo != "/repo" {
+		// a run against a scratch copy (self-test with a seeded change) must not overwrite the evidence of the real tree
+		evDir = filepath.Join(root, "out", "evidence-scratch")
+	}
+	os.MkdirAll(evDir, 0o755)
+	if err := os.WriteFile(filepath.Join(evDir, def.ID+".json"), append(eb, '\n'), 0o644); err != nil {
 		fmt.Fprintln(os.Stderr, err)
 		return 2
 	}
